@@ -43,10 +43,35 @@ def run(ctx):
                 if h in (23, 4588) or (h == 29 and x["group"] == 23):
                     out.append(dict(x, ks_list=[h, x["group"]]))
         return out
-    scns, events, rej, unadv, mc = nc.run_nego(ctx, "c10", subset=subset, shards=8)
+    kxstat = {}
+    def kx_scenarios():
+        # the hybrid group the in-tree server lacks (X25519Kyber768Draft00): answered by the test server's key-exchange
+        # hook with the layout spec/Negotiation.tla HybridLayout prescribes, and with every other layout (the client
+        # must then fail: its keys differ)
+        k, _, res = nc.gen_scenarios(ctx, "c18kx")
+        kxstat["model"] = (res.generated, res.distinct)
+        if not k or not any(x["mode"] == "compliant" for x in k) or not any(x["mode"] != "compliant" for x in k):
+            raise vlib.Machinery("NegoMC_c18kx produced no compliant / no deviating hybrid scenario (no parrot offers group 25497 any more?)")
+        if ctx.quick:
+            k = [x for x in k if x["suite"] == 4865]
+        return k
+    scns, events, rej, unadv, mc = nc.run_nego(ctx, "c10", subset=subset, extra_scn=kx_scenarios, shards=8)
+    kx = [s for s in scns if s.get("kx_secret")]
+    resk = {e["sc"]: e for e in events if e["ev"] == "Result"}
+    kx_ok = sum(1 for s in kx if s["mode"] == "compliant" and resk[s["sc"]]["cok"] and resk[s["sc"]]["echo"])
+    kx_refused = sum(1 for s in kx if s["mode"] != "compliant" and not resk[s["sc"]]["cok"])
+    if (kx_ok == 0 or kx_refused == 0) and not any(r["scn"].get("kx_secret") and r["kind"] in ("safety", "progress") for r in rej):
+        # nothing completed / nothing was refused although the trace specification has no complaint: the scenarios did not run
+        raise vlib.Machinery("vacuous: hybrid key exchange by the test server completed=%d, deviating layouts refused=%d" % (kx_ok, kx_refused))
     for r in rej:
         d = nc.sig_detail(r["detail"])
         s = r["scn"]
+        if s.get("kx_secret") and r["kind"] in ("safety", "progress"):
+            ctx.finding("hybrid:%s:%s:group-%d:%s:secret=%s:kem=%s" % (r["kind"], d, s["group"], re.sub(r"@\d+", "@seed", s["id"]), s["kx_secret"], s["kx_kem"]),
+                        "hybrid group %d answered by the test server with share %s, secret %s, KEM %s (prescribed: %s): %s %s; client error: %s"
+                        % (s["group"], s["kx_share"], s["kx_secret"], s["kx_kem"], "yes" if s["mode"] == "compliant" else "no", r["kind"], d,
+                           (r["result"] or {}).get("cerr", "")), {"scenario": nc.scn_brief(s), "result": r["result"]})
+            continue
         if r["kind"] in ("order", "timeout", "calibration"):
             raise vlib.Machinery("trace problem: %r" % (r,))
         if r["kind"] == "share":
@@ -78,5 +103,7 @@ def run(ctx):
         raise vlib.Machinery("vacuous: ok=%d hrr=%d" % (ok, hrr))
     cov = {"evaluations": len(scns) + len(hel), "distinct_nontrivial": len(scns),
            "rule": "every TLS 1.3 parrot x every offered group the server implements (quick: one suite per group; thorough: every suite); plus %d fresh hellos per parrot for the freshness formula; distinct = (parrot, group[, suite]) scenarios" % n,
-           "samples": [nc.scn_brief(s) for s in scns[:3]], "completed": ok, "via_hrr": hrr, "fresh_hellos": len(hel), "exhaustive": not ctx.quick}
+           "samples": [nc.scn_brief(s) for s in scns[:3]], "completed": ok, "via_hrr": hrr, "fresh_hellos": len(hel),
+           "hybrid_kx_by_test_server": {"scenarios": len(kx), "prescribed_layout_completed": kx_ok, "deviating_layout_refused": kx_refused,
+                                        "model_states": kxstat.get("model")}, "exhaustive": not ctx.quick}
     return "model_checking", cov, ["QUIC empty legacy session id is checked by C23", "randomized specs: C09"]
